@@ -45,6 +45,33 @@ Theorem C27_use_keyspace : forall ks, lex_use (use_keyspace ks) = Some ks.
 Proof. exact use_keyspace_roundtrip. Qed.
 Print Assumptions C27_use_keyspace.
 
+(* schema export (as_cql_query / export_as_string producers of cassandra/metadata.py): a protected name list tokenizes to
+   exactly those identifiers, for any sufficiently large fuel (one unit per token or blank) *)
+Theorem C27_name_list : forall ns, exists K, forall fuel, (K <= fuel)%nat ->
+  tokenize fuel (names_joined ns) = Some (names_tokens ns).
+Proof.
+  intros ns. exists (names_fuel ns 1). intros fuel Hle. apply (tokenize_ge (names_fuel ns 1)); [assumption|].
+  pose proof (tok_names_joined ns 1 [] (conj I I)) as H. rewrite app_nil_r in H. rewrite H. apply pre_list_some.
+Qed.
+Print Assumptions C27_name_list.
+
+(* DSE 6.8 graph edge tables: label, partition key (single or composite) and clustering columns of the FROM / TO clauses *)
+Theorem C27_edge_export : forall label pks ccs,
+  (exists K, forall fuel, (K <= fuel)%nat ->
+     tokenize fuel (export_edge (codes "FROM") label pks ccs) = Some (edge_tokens (TKw (codes "from")) label pks ccs)) /\
+  (exists K, forall fuel, (K <= fuel)%nat ->
+     tokenize fuel (export_edge (codes "TO") label pks ccs) = Some (edge_tokens (TKw (codes "to")) label pks ccs)).
+Proof.
+  intros label pks ccs. split; apply tok_export_edge_from_to; [exact tok_kw_from|exact tok_kw_to].
+Qed.
+Print Assumptions C27_edge_export.
+
+(* custom-index WITH OPTIONS map (dict of str -> str through the Encoder): every key and value reads back *)
+Theorem C27_index_options : forall kvs, exists K, forall fuel, (K <= fuel)%nat ->
+  tokenize fuel (string_map kvs) = Some (map_tokens kvs).
+Proof. exact tok_string_map. Qed.
+Print Assumptions C27_index_options.
+
 (* record of the two defects found by this check (fixed in the driver, findings/C27.json): the same statements are
    false for the `$`-anchored regex and for the unescaped USE statement *)
 Theorem C27_dollar_anchor_refuted : ~ (forall n, maybe_escape_name_d true n = n -> lex_ident n = Some (n, [])).
